@@ -372,6 +372,14 @@ type fakeResponse struct{ ct string }
 
 func (r *fakeResponse) fWrongSide(w *wire) bool { return r.ct == "text/plain" && !w.SkipRequestBody }
 
+func fLastWins(xs []string) bool {
+	found := false
+	for _, x := range xs {
+		found = x == "abs"
+	}
+	return found
+}
+
 type flagsA struct{ Timeout, Temporary bool }
 
 type flagsB struct{ Temporary, Timeout bool }
@@ -461,6 +469,6 @@ func LintSelfTest() (map[string]bool, error) {
 }
 
 // SelfTestKinds lists the lint kinds that must fire in the self-test.
-var SelfTestKinds = []string{"lateguard", "afterput", "dupbranch", "selfsearch", "twinguard", "lazyinit", "shallow", "var", "memo", "recursion", "slice", "flag", "break", "swap", "guardfield", "retryonce", "guardvar", "rawname", "invariant", "mapstore", "selfcopy", "parity", "maporder", "swallow", "poolleak", "copyslip", "idxspace", "seqparity", "clonecond", "bypass", "aliasstore", "consumedarg", "wrongside", "posfield"}
+var SelfTestKinds = []string{"lateguard", "afterput", "dupbranch", "selfsearch", "twinguard", "lazyinit", "shallow", "var", "memo", "recursion", "slice", "flag", "break", "swap", "guardfield", "retryonce", "guardvar", "rawname", "invariant", "mapstore", "selfcopy", "parity", "maporder", "swallow", "poolleak", "copyslip", "idxspace", "seqparity", "clonecond", "bypass", "aliasstore", "consumedarg", "wrongside", "posfield", "lastwins"}
 
 func init() { sort.Strings(SelfTestKinds) }
